@@ -335,6 +335,12 @@ func interpCases(c *Ctx, n int, tweak func(cfg *GenCfg, i int), post func(s *Sce
 		case "varReuseSends":
 			prog = g.varReuseProgram(2, true)
 			c.count("directed:varReuseSends")
+		case "varReuseInfix":
+			prog = g.varReuseProgram(3, true)
+			c.count("directed:varReuseInfix")
+		case "mismatchSum":
+			prog = g.mismatchSumProgram()
+			c.count("directed:mismatchSum")
 		case "capVarReuse":
 			prog = g.capVarReuseProgram(cfg.OneSend)
 			c.count("directed:capVarReuse")
@@ -450,6 +456,9 @@ func init() {
 				cfg.Directed = "unboundedThenBounded"
 			case 5:
 				cfg.Directed = "varReuseSends"
+				if i%16 == 13 {
+					cfg.Directed = "varReuseInfix"
+				}
 			case 1:
 				cfg.Directed = "overdraftOrigin"
 			case 4:
@@ -474,6 +483,10 @@ func init() {
 				cfg.Directed = "keptSpan"
 			case 6:
 				cfg.Directed = "repeatDraw"
+			case 5:
+				if i%16 == 5 {
+					cfg.Directed = "mismatchSum"
+				}
 			}
 		}, nil)
 	}
